@@ -173,6 +173,398 @@ theorem allRendered_length {α} (tk : α → List Str) {es : List α} {ps : List
   | nil => rfl
   | cons _ _ ih => simp [ih]
 
+
+/-! ## §2 the shape of the tokenized file, positional access; §3 counts and block markers -/
+
+def countsL (n m : Nat) (cr : List Str) : List Str := mv (cs "COUNTS" :: natRepr n :: natRepr m :: cr)
+
+/-- the tokenized file: five lines, counts line, `BEGIN ATOM`, atom lines `A`, `END ATOM`, the rest -/
+def fileL (H : List (List Str)) (n m : Nat) (cr : List Str) (A R : List (List Str)) : List (List Str) :=
+  H ++ countsL n m cr :: mv tBeginAtom :: (A ++ mv tEndAtom :: R)
+
+theorem counts_get (H : List (List Str)) (hH : H.length = 5) (n m : Nat) (cr : List Str) (A R : List (List Str)) :
+    getIdx (fileL H n m cr A R) 5 = .ok (countsL n m cr) ∧
+    getIdx (countsL n m cr) 2 = .ok (cs "COUNTS") ∧
+    getIdx (countsL n m cr) 3 = .ok (natRepr n) ∧ getIdx (countsL n m cr) 4 = .ok (natRepr m) := by
+  refine ⟨getIdx_at H _ _ 5 hH.symm, ?_, ?_, ?_⟩ <;> simp [getIdx, countsL, mv]
+
+theorem validateCounts_eval (H : List (List Str)) (hH : H.length = 5) (n m : Nat) (cr : List Str)
+    (A R : List (List Str)) : validateCountsLine (fileL H n m cr A R) = .ok () := by
+  obtain ⟨h5, h2, -, -⟩ := counts_get H hH n m cr A R
+  unfold validateCountsLine
+  simp only [h5, ok_bind, h2]
+  simp [countsL, mv]
+  rfl
+
+theorem beginAtom_eval (H : List (List Str)) (hH : H.length = 5) (n m : Nat) (cr : List Str)
+    (A R : List (List Str)) : expectBlockLine (fileL H n m cr A R) 6 (cs "BEGIN ATOM") = .ok () := by
+  have := expectBlockLine_at (H ++ [countsL n m cr]) tBeginAtom (A ++ mv tEndAtom :: R) 6 (cs "BEGIN ATOM")
+    (by simp [hH]) (by simp [tBeginAtom, joinSp, cs])
+  simpa [fileL, List.append_assoc] using this
+
+theorem endAtom_eval (H : List (List Str)) (hH : H.length = 5) (n m : Nat) (cr : List Str)
+    (A R : List (List Str)) (hA : A.length = n) :
+    expectBlockLine (fileL H n m cr A R) (7 + (n : Int)) (cs "END ATOM") = .ok () := by
+  have := expectBlockLine_at (H ++ [countsL n m cr, mv tBeginAtom] ++ A) tEndAtom R (7 + (n : Int)) (cs "END ATOM")
+    (by simp [hH, hA]; omega) (by simp [tEndAtom, joinSp, cs])
+  simpa [fileL, List.append_assoc] using this
+
+theorem atomSlice_eval (H : List (List Str)) (hH : H.length = 5) (n m : Nat) (cr : List Str)
+    (A R : List (List Str)) (hA : A.length = n) :
+    sliceInt (fileL H n m cr A R) 7 (7 + (n : Int)) = A := by
+  have := sliceInt_mid (H ++ [countsL n m cr, mv tBeginAtom]) A (mv tEndAtom :: R) 7 (7 + (n : Int))
+    (by simp [hH]) (by simp [hH, hA])
+  simpa [fileL, List.append_assoc] using this
+
+/-! ## §4 the atom fold -/
+
+theorem record_none_iff (e : AtomEntry) : e.record = none ↔ e.isStar = true := by
+  cases e <;> simp [AtomEntry.record, AtomEntry.isStar]
+
+/-- what one atom line does to the state of the loop -/
+def atomStep (x : List (Int × Atom) × List Int) (e : AtomEntry) : List (Int × Atom) × List Int :=
+  match e.record with
+  | some a => (ainsert (e.idx - 1) a x.1, x.2)
+  | none => (x.1, x.2 ++ [e.idx - 1])
+
+theorem atom_line_eval (e : AtomEntry) (he : e.Ok) :
+    getIdx (mv e.toks) 2 >>= pyInt = .ok e.idx ∧ parseAtomAttributesV3000 (mv e.toks) = .ok e.record := by
+  cases e with
+  | star t i rest =>
+    refine ⟨?_, parseAtomAttributes_star t rest⟩
+    have := he.idxTok
+    simpa [getIdx, mv, AtomEntry.toks, ok_bind] using this
+  | real t i sym x y z aamap ps =>
+    have h1 := he.idxTok
+    obtain ⟨k1, k2, k3, k4, k5⟩ := he.real
+    obtain ⟨zAt, hz, hp⟩ := parseAtomAttributes_general t sym x y z aamap ps k1 k2 k3 k4 k5
+    refine ⟨by simpa [getIdx, mv, AtomEntry.toks, ok_bind] using h1, ?_⟩
+    simp only [mv, AtomEntry.toks, AtomEntry.record, hz]
+    exact hp
+
+theorem atomFold_eq : ∀ (atoms : List AtomEntry) (d : List (Int × Atom)) (s : List Int),
+    atoms.foldl atomStep (d, s) =
+      (atoms.foldl (fun d e => match e.record with
+        | some a => ainsert (e.idx - 1) a d
+        | none => d) d, s ++ starsOf atoms) := by
+  intro atoms
+  induction atoms with
+  | nil => intro d s; simp [starsOf]
+  | cons e r ih =>
+    intro d s
+    rw [List.foldl_cons, List.foldl_cons]
+    cases hrec : e.record with
+    | none =>
+      have hs : e.isStar = true := (record_none_iff e).1 hrec
+      simp only [atomStep, hrec, ih]
+      simp [starsOf, hs]
+    | some a =>
+      have hs : e.isStar = false := by
+        cases h : e.isStar with
+        | false => rfl
+        | true => rw [(record_none_iff e).2 h] at hrec; cases hrec
+      simp only [atomStep, hrec, ih]
+      simp [starsOf, hs]
+
+theorem atomBlock_eval (H : List (List Str)) (hH : H.length = 5) (m : Nat) (cr : List Str)
+    (atoms : List AtomEntry) (R : List (List Str)) (hatoms : ∀ e ∈ atoms, e.Ok)
+    (hn : (natRepr atoms.length).length ≤ intMaxStrDigits) :
+    parseAtomBlockV3000 (fileL H atoms.length m cr (atoms.map fun e => mv e.toks) R)
+      = .ok (atomDictOf atoms, starsOf atoms) := by
+  have hA : (atoms.map fun e => mv e.toks).length = atoms.length := by simp
+  obtain ⟨h5, -, h3, -⟩ := counts_get H hH atoms.length m cr (atoms.map fun e => mv e.toks) R
+  unfold parseAtomBlockV3000
+  simp only [h5, ok_bind, h3, pyInt_natRepr _ hn, beginAtom_eval H hH, endAtom_eval H hH _ _ _ _ _ hA,
+    atomSlice_eval H hH _ _ _ _ _ hA]
+  have key := foldlM_map_ok (fun e : AtomEntry => mv e.toks)
+    (fun (x : List (Int × Atom) × List Int) (line : List Str) =>
+      (match x with
+      | (atoms, stars) => do
+        let idx ← pyInt (← getIdx line 2)
+        match ← parseAtomAttributesV3000 line with
+          | none => pure (atoms, stars ++ [idx - 1])
+          | some a => pure (ainsert (idx - 1) a atoms, stars) : PyM (List (Int × Atom) × List Int)))
+    atomStep (fun _ => True) atoms ([], []) trivial
+    (by
+      rintro ⟨d, s⟩ e he -
+      refine ⟨?_, trivial⟩
+      obtain ⟨g1, g2⟩ := atom_line_eval e (hatoms e he)
+      cases h2 : getIdx (mv e.toks) 2 with
+      | error err => rw [h2] at g1; cases g1
+      | ok tok =>
+        rw [h2, ok_bind] at g1
+        simp only [ok_bind, g1, g2, atomStep]
+        cases e.record <;> rfl)
+  rw [atomFold_eq] at key
+  have k1 := key.1
+  rw [List.nil_append] at k1
+  exact k1
+
+
+/-! ## §5 the bond fold -/
+
+theorem mem_of_isInfix (p : Str) : ∀ (t : Str), isInfix p t = true → ∀ c ∈ p, c ∈ t := by
+  intro t
+  induction t with
+  | nil =>
+    intro h c hc
+    simp only [isInfix, List.isEmpty_iff] at h
+    subst h; cases hc
+  | cons a r ih =>
+    intro h c hc
+    simp only [isInfix, Bool.or_eq_true] at h
+    rcases h with h | h
+    · exact (List.isPrefixOf_iff_prefix.1 h).subset hc
+    · exact List.mem_cons_of_mem _ (ih h c hc)
+
+theorem findInfix_none (p : Str) : ∀ (t : Str), isInfix p t = false → findInfix p t = none := by
+  intro t
+  induction t with
+  | nil =>
+    intro h
+    simp only [isInfix] at h
+    simp [findInfix, h]
+  | cons a r ih =>
+    intro h
+    simp only [isInfix, Bool.or_eq_false_iff] at h
+    simp [findInfix, h.1, ih h.2]
+
+theorem findInfix_joinSp_none (p : Str) (hp : ' ' ∉ p) (ts : List Str) (hne : ts ≠ [])
+    (h : ∀ t ∈ ts, isInfix p t = false) : findInfix p (joinSp ts) = none := by
+  obtain ⟨init, l, rfl⟩ : ∃ init l, ts = init ++ [l] :=
+    ⟨ts.dropLast, ts.getLast hne, (List.dropLast_concat_getLast hne).symm⟩
+  rw [V3L.joinSp_sp init l []]
+  show findInfix p (V3L.sp init ++ l) = none
+  rw [V3L.findInfix_sp p hp l init (fun t ht => h t (by simp [ht])), findInfix_none p l (h l (by simp))]
+  rfl
+
+theorem noInfix_of_noParen {t : Str} (h : '(' ∉ t) : ¬ isInfix (cs "ENDPTS=(") t = true :=
+  fun hi => h (mem_of_isInfix _ t hi '(' (by simp [cs]))
+
+/-- a token without `ENDPTS=(` and without `)` -/
+def Clean (t : Str) : Prop := IsToken t ∧ ¬ isInfix (cs "ENDPTS=(") t = true ∧ ')' ∉ t
+
+theorem intRepr_clean (v : Int) : Clean (intRepr v) := by
+  refine ⟨intRepr_isToken v, noInfix_of_noParen ?_, ?_⟩
+  · intro h
+    rcases intRepr_chars v _ h with h | h
+    · revert h; decide
+    · revert h; decide
+  · intro h
+    rcases intRepr_chars v _ h with h | h
+    · revert h; decide
+    · revert h; decide
+
+theorem clean_M : Clean (cs "M") := ⟨isToken_M, noInfix_of_noParen (by simp [cs]), by simp [cs]⟩
+theorem clean_V30 : Clean (cs "V30") := ⟨isToken_V30, noInfix_of_noParen (by simp [cs]), by simp [cs]⟩
+
+/-- a bond line whose other atom is a star atom -/
+theorem starLine_eval (b : BondEntry) (hb : b.Ok) (start : Int) :
+    parseBondLineWithStarAtom (mv b.toks) start =
+      .ok (match b.ends with
+        | some es => es.map fun (e : Nat) => (start, (e : Int) - 1)
+        | none => []) := by
+  have hfront : ∀ t ∈ cs "M" :: cs "V30" :: b.idxTok :: intRepr b.btype :: intRepr b.a1 :: intRepr b.a2 :: b.pre,
+      Clean t := by
+    intro t ht
+    simp only [List.mem_cons] at ht
+    rcases ht with rfl | rfl | rfl | rfl | rfl | rfl | ht
+    · exact clean_M
+    · exact clean_V30
+    · exact hb.idxTok
+    · exact intRepr_clean _
+    · exact intRepr_clean _
+    · exact intRepr_clean _
+    · exact hb.pre t ht
+  cases hends : b.ends with
+  | some es =>
+    have e : mv b.toks = (cs "M" :: cs "V30" :: b.idxTok :: intRepr b.btype :: intRepr b.a1 :: intRepr b.a2 :: b.pre)
+        ++ endptsToks es ++ b.post := by
+      simp [mv, BondEntry.toks, hends]
+    obtain ⟨h1, h2⟩ := hb.ends es hends
+    rw [e]
+    exact parseBondLineWithStarAtom_endpts _ _ es start h1 hfront (fun t ht => ⟨(hb.post t ht).1, (hb.post t ht).2.1⟩) h2
+  | none =>
+    apply parseBondLineWithStarAtom_none
+    apply findInfix_joinSp_none _ V3L.cs_ENDPTS_noblank _ (by simp [mv])
+    intro t ht
+    have : t ∈ (cs "M" :: cs "V30" :: b.idxTok :: intRepr b.btype :: intRepr b.a1 :: intRepr b.a2 :: b.pre) ∨ t ∈ b.post := by
+      simp only [mv, BondEntry.toks, hends, List.append_nil, List.mem_cons, List.mem_append] at ht ⊢
+      rcases ht with h | h | h | h | h | h | h | h <;> simp [h]
+    rcases this with h | h
+    · simpa using (hfront t h).2.1
+    · simpa using (hb.post t h).2.2 hends
+
+/-- the tokenized rest of the file after `END ATOM` -/
+def bondTail (bonds : List BondEntry) (T : List (List Str)) : List (List Str) :=
+  if bonds.isEmpty then T else mv tBeginBond :: ((bonds.map fun b => mv b.toks) ++ mv tEndBond :: T)
+
+theorem bondBlock_eval (H : List (List Str)) (hH : H.length = 5) (n : Nat) (cr : List Str)
+    (A : List (List Str)) (hA : A.length = n) (bonds : List BondEntry) (T : List (List Str)) (stars : List Int)
+    (hbonds : ∀ b ∈ bonds, b.Ok)
+    (hn : (natRepr n).length ≤ intMaxStrDigits) (hm : (natRepr bonds.length).length ≤ intMaxStrDigits)
+    (hns : ∀ b ∈ bonds, ¬ (stars.contains (b.a1 - 1) = true ∧ stars.contains (b.a2 - 1) = true)) :
+    parseBondBlockV3000 (fileL H n bonds.length cr A (bondTail bonds T)) stars = .ok (bondDictOf stars bonds) := by
+  obtain ⟨h5, -, h3, h4⟩ := counts_get H hH n bonds.length cr A (bondTail bonds T)
+  unfold parseBondBlockV3000
+  simp only [h5, ok_bind, h3, h4, pyInt_natRepr _ hn, pyInt_natRepr _ hm]
+  cases bonds with
+  | nil => simp [bondDictOf]; rfl
+  | cons b0 bs0 =>
+    generalize hes : b0 :: bs0 = bonds at *
+    have hne : ((bonds.length : Int) == 0) = false := by
+      subst hes; simp only [List.length_cons, beq_eq_false_iff_ne, ne_eq]; omega
+    have htail : bondTail bonds T = mv tBeginBond :: ((bonds.map fun b => mv b.toks) ++ mv tEndBond :: T) := by
+      subst hes; simp [bondTail]
+    generalize hB : (bonds.map fun b => mv b.toks) = B at htail
+    have hlenB : B.length = bonds.length := by subst hB; simp
+    rw [htail]
+    simp only [hne, Bool.false_eq_true, if_false]
+    have hb : expectBlockLine (fileL H n bonds.length cr A (mv tBeginBond :: (B ++ mv tEndBond :: T)))
+        (7 + (n : Int) + 2 - 1) (cs "BEGIN BOND") = .ok () := by
+      have := expectBlockLine_at (H ++ [countsL n bonds.length cr, mv tBeginAtom] ++ A ++ [mv tEndAtom]) tBeginBond
+        (B ++ mv tEndBond :: T) (7 + (n : Int) + 2 - 1) (cs "BEGIN BOND")
+        (by simp [hH, hA]; omega) (by simp [tBeginBond, joinSp, cs])
+      simpa [fileL, List.append_assoc] using this
+    have hend : expectBlockLine (fileL H n bonds.length cr A (mv tBeginBond :: (B ++ mv tEndBond :: T)))
+        (7 + (n : Int) + 2 + (bonds.length : Int)) (cs "END BOND") = .ok () := by
+      have := expectBlockLine_at (H ++ [countsL n bonds.length cr, mv tBeginAtom] ++ A ++ [mv tEndAtom, mv tBeginBond] ++ B)
+        tEndBond T (7 + (n : Int) + 2 + (bonds.length : Int)) (cs "END BOND")
+        (by simp [hH, hA, hlenB]; omega) (by simp [tEndBond, joinSp, cs])
+      simpa [fileL, List.append_assoc] using this
+    have hs : sliceInt (fileL H n bonds.length cr A (mv tBeginBond :: (B ++ mv tEndBond :: T)))
+        (7 + (n : Int) + 2) (7 + (n : Int) + 2 + (bonds.length : Int)) = B := by
+      have := sliceInt_mid (H ++ [countsL n bonds.length cr, mv tBeginAtom] ++ A ++ [mv tEndAtom, mv tBeginBond]) B
+        (mv tEndBond :: T) (7 + (n : Int) + 2) (7 + (n : Int) + 2 + (bonds.length : Int))
+        (by simp [hH, hA]; omega) (by simp [hH, hA, hlenB]; omega)
+      simpa [fileL, List.append_assoc] using this
+    simp only [hb, hend, hs, ok_bind]
+    subst hB
+    refine And.left (foldlM_map_ok (fun b : BondEntry => mv b.toks) _
+      (fun d b => (b.tuples stars).foldl (fun d t => ainsert t ({ btype := some b.btype } : Bond) d) d)
+      (fun _ => True) bonds [] trivial ?_)
+    intro d b hbm _
+    refine ⟨?_, trivial⟩
+    have hok := hbonds b hbm
+    obtain ⟨b1, b2, b3⟩ := hok.nums
+    have g4 : getIdx (mv b.toks) 4 = .ok (intRepr b.a1) := by simp [getIdx, mv, BondEntry.toks]
+    have g5 : getIdx (mv b.toks) 5 = .ok (intRepr b.a2) := by simp [getIdx, mv, BondEntry.toks]
+    have g3 : getIdx (mv b.toks) 3 = .ok (intRepr b.btype) := by simp [getIdx, mv, BondEntry.toks]
+    simp only [g4, g5, g3, ok_bind, pyInt_intRepr _ b1, pyInt_intRepr _ b2, pyInt_intRepr _ b3]
+    have hns' := hns b hbm
+    cases h1 : stars.contains (b.a1 - 1) <;> cases h2 : stars.contains (b.a2 - 1)
+    · simp only [BondEntry.tuples, h1, h2, Bool.false_and, Bool.false_eq_true, if_false]
+      rfl
+    · simp only [BondEntry.tuples, h1, h2, Bool.false_and, Bool.false_eq_true, if_false, if_true,
+        starLine_eval b hok, ok_bind]
+      rfl
+    · simp only [BondEntry.tuples, h1, h2, Bool.and_false, Bool.false_eq_true, if_false, if_true,
+        starLine_eval b hok, ok_bind]
+      rfl
+    · exact absurd ⟨h1, h2⟩ hns'
+
+
+/-! ## §6 validation and assembly -/
+
+theorem mem_ainsert {κ ν} [BEq κ] (k : κ) (v : ν) : ∀ (d : List (κ × ν)) (e : κ × ν),
+    e ∈ ainsert k v d → e = (k, v) ∨ e ∈ d := by
+  intro d
+  induction d with
+  | nil => intro e h; simpa [ainsert] using h
+  | cons x r ih =>
+    intro e h
+    obtain ⟨k', v'⟩ := x
+    simp only [ainsert] at h
+    split at h
+    · rcases List.mem_cons.1 h with h | h
+      · exact Or.inl h
+      · exact Or.inr (List.mem_cons_of_mem _ h)
+    · rcases List.mem_cons.1 h with h | h
+      · exact Or.inr (by simp [h])
+      · rcases ih e h with h | h
+        · exact Or.inl h
+        · exact Or.inr (List.mem_cons_of_mem _ h)
+
+theorem mem_foldl_ainsert {κ ν} [BEq κ] (v : ν) : ∀ (ts : List κ) (d : List (κ × ν)) (e : κ × ν),
+    e ∈ ts.foldl (fun d t => ainsert t v d) d → e ∈ d ∨ e.1 ∈ ts := by
+  intro ts
+  induction ts with
+  | nil => intro d e h; exact Or.inl h
+  | cons t r ih =>
+    intro d e h
+    rw [List.foldl_cons] at h
+    rcases ih _ e h with h | h
+    · rcases mem_ainsert t v d e h with h | h
+      · exact Or.inr (by simp [h])
+      · exact Or.inl h
+    · exact Or.inr (List.mem_cons_of_mem _ h)
+
+theorem bondDict_keys (stars : List Int) : ∀ (bonds : List BondEntry) (d : List ((Int × Int) × Bond))
+    (e : (Int × Int) × Bond),
+    e ∈ bonds.foldl (fun d b => (b.tuples stars).foldl (fun d t => ainsert t ({ btype := some b.btype } : Bond) d) d) d →
+    e ∈ d ∨ ∃ b ∈ bonds, e.1 ∈ b.tuples stars := by
+  intro bonds
+  induction bonds with
+  | nil => intro d e h; exact Or.inl h
+  | cons b r ih =>
+    intro d e h
+    rw [List.foldl_cons] at h
+    rcases ih _ e h with h | ⟨b', hb', h⟩
+    · rcases mem_foldl_ainsert _ _ d e h with h | h
+      · exact Or.inl h
+      · exact Or.inr ⟨b, by simp, h⟩
+    · exact Or.inr ⟨b', List.mem_cons_of_mem _ hb', h⟩
+
+theorem validateBond_eval (stars : List Int) (bonds : List BondEntry) (A : List (Int × Atom))
+    (h : ∀ b ∈ bonds, ∀ t ∈ b.tuples stars, (alookup t.1 A).isSome ∧ (alookup t.2 A).isSome) :
+    validateBondIndices (bondDictOf stars bonds) A = .ok () := by
+  unfold validateBondIndices
+  apply forM_ok
+  rintro ⟨⟨u, v⟩, bd⟩ he
+  rcases bondDict_keys stars bonds [] _ he with h' | ⟨b, hb, ht⟩
+  · cases h'
+  · obtain ⟨h1, h2⟩ := h b hb _ ht
+    simp only at h1 h2
+    have e1 : (alookup u A).isNone = false := by
+      cases hh : alookup u A with
+      | none => rw [hh] at h1; cases h1
+      | some x => rfl
+    have e2 : (alookup v A).isNone = false := by
+      cases hh : alookup v A with
+      | none => rw [hh] at h2; cases h2
+      | some x => rfl
+    simp only [e1, e2, Bool.or_self, Bool.false_eq_true, if_false]
+    rfl
+
+/-- the optional bond part of the file, spliced -/
+theorem bondPart_splice (bonds : List BondEntry) (pBB pEB : List Str) (pBonds : List (List Str))
+    (rBB : Rendered tBeginBond pBB) (rEB : Rendered tEndBond pEB)
+    (rBonds : AllRendered BondEntry.toks bonds pBonds) (tail tailS : List Str)
+    (h : concatLinesWithDash tail = .ok tailS) (hr : tail ≠ []) :
+    ∃ S, concatLinesWithDash ((if bonds.isEmpty then [] else pBB ++ pBonds.flatten ++ pEB) ++ tail) = .ok S ∧
+      S.map tokenizeLine = bondTail bonds (tailS.map tokenizeLine) ∧
+      (if bonds.isEmpty then [] else pBB ++ pBonds.flatten ++ pEB) ++ tail ≠ [] := by
+  cases hE : bonds.isEmpty with
+  | true => exact ⟨tailS, by simpa using h, by simp [bondTail, hE], by simpa using hr⟩
+  | false =>
+    obtain ⟨fEB, t1, s1⟩ := rendered_splice rEB tail tailS h hr
+    obtain ⟨fB, t2, s2, n2⟩ := allRendered_splice BondEntry.toks rBonds (pEB ++ tail) (fEB :: tailS) s1
+      (List.append_ne_nil_of_right_ne_nil _ hr)
+    obtain ⟨fBB, t3, s3⟩ := rendered_splice rBB _ _ s2 n2
+    refine ⟨fBB :: (fB ++ fEB :: tailS), ?_, ?_, ?_⟩
+    · simpa [List.append_assoc] using s3
+    · simp [bondTail, hE, t1, t2, t3]
+    · simp only [Bool.false_eq_true, if_false, List.append_assoc]
+      exact List.append_ne_nil_of_right_ne_nil _ n2
+
+theorem graphAttributes_unfold (lines : List Str) :
+    graphAttributesV3000 lines =
+      (tokenizeLines lines >>= fun toks =>
+        validateCountsLine toks >>= fun _ =>
+        parseAtomBlockV3000 toks >>= fun p =>
+        parseBondBlockV3000 toks p.2 >>= fun bonds =>
+        validateBondIndices bonds p.1 >>= fun _ => pure (p.1, bonds)) := rfl
+
 end V3F
 
 /-- **The V3000 connection table, every spelling.** -/
@@ -196,6 +588,41 @@ theorem graphAttributesV3000_spec (h0 h1 h2 h3 : Str) (line4 : List Str) (counts
       (h0 :: h1 :: h2 :: h3 :: (p4 ++ pCounts ++ pBeginAtom ++ pAtoms.flatten ++ pEndAtom ++
         (if bonds.isEmpty then [] else pBeginBond ++ pBonds.flatten ++ pEndBond) ++ tailLines)) =
       .ok (atomDictOf atoms, bondDictOf (starsOf atoms) bonds) := by
-  sorry
+  -- splice the file from the back
+  obtain ⟨SB, sB, tB, nB⟩ := V3F.bondPart_splice bonds pBeginBond pEndBond pBonds rBB rEB rBonds tailLines
+    tailSpliced htail htailne
+  obtain ⟨fEA, tEA, sEA⟩ := V3F.rendered_splice rEA _ _ sB nB
+  have nEA := List.append_ne_nil_of_right_ne_nil pEndAtom nB
+  obtain ⟨fA, tA, sA, nA⟩ := V3F.allRendered_splice AtomEntry.toks rAtoms _ _ sEA nEA
+  obtain ⟨fBA, tBA, sBA⟩ := V3F.rendered_splice rBA _ _ sA nA
+  have nBA := List.append_ne_nil_of_right_ne_nil pBeginAtom nA
+  obtain ⟨fC, tC, sC⟩ := V3F.rendered_splice rCounts _ _ sBA nBA
+  have nC := List.append_ne_nil_of_right_ne_nil pCounts nBA
+  obtain ⟨f4, -, s4⟩ := V3F.rendered_splice r4 _ _ sC nC
+  have n4 := List.append_ne_nil_of_right_ne_nil p4 nC
+  have hpass := splice_passthrough [h0, h1, h2, h3] hhdr _ n4
+  rw [s4] at hpass
+  have htok : tokenizeLines (h0 :: h1 :: h2 :: h3 :: (p4 ++ pCounts ++ pBeginAtom ++ pAtoms.flatten ++ pEndAtom ++
+        (if bonds.isEmpty then [] else pBeginBond ++ pBonds.flatten ++ pEndBond) ++ tailLines)) =
+      .ok (V3F.fileL [tokenizeLine h0, tokenizeLine h1, tokenizeLine h2, tokenizeLine h3, tokenizeLine f4]
+        atoms.length bonds.length countsRest (atoms.map fun e => WR.mv e.toks)
+        (V3F.bondTail bonds (tailSpliced.map tokenizeLine))) := by
+    unfold tokenizeLines
+    simp only [List.append_assoc]
+    have e : h0 :: h1 :: h2 :: h3 :: (p4 ++ (pCounts ++ (pBeginAtom ++ (pAtoms.flatten ++ (pEndAtom ++
+        ((if bonds.isEmpty then [] else pBeginBond ++ (pBonds.flatten ++ pEndBond)) ++ tailLines)))))) =
+        [h0, h1, h2, h3] ++ (p4 ++ (pCounts ++ (pBeginAtom ++ (pAtoms.flatten ++ (pEndAtom ++
+        ((if bonds.isEmpty then [] else pBeginBond ++ pBonds.flatten ++ pEndBond) ++ tailLines)))))) := by
+      simp [List.append_assoc]
+    rw [e, hpass]
+    simp only [Except.map, LineM.ok_bind, pure, Except.pure, V3F.fileL, V3F.countsL, List.map_append, List.map_cons,
+      tEA, tA, tBA, tC, tB, List.cons_append, List.nil_append]
+    rfl
+  rw [V3F.graphAttributes_unfold, htok, LineM.ok_bind,
+    V3F.validateCounts_eval _ rfl, LineM.ok_bind,
+    V3F.atomBlock_eval _ rfl _ _ atoms _ hatoms hcounts.1, LineM.ok_bind,
+    V3F.bondBlock_eval _ rfl atoms.length _ _ (by simp) bonds _ (starsOf atoms) hbonds hcounts.1 hcounts.2 hnostar2,
+    LineM.ok_bind, V3F.validateBond_eval _ _ _ hendpoints]
+  rfl
 
 end Tucan
